@@ -6,7 +6,7 @@ sys.path.insert(0, os.path.join(ROOT, "tools"))
 import check
 os.makedirs(os.path.join(ROOT, ".work"), exist_ok=True)
 check.run_translator()
-ok, out = check.lake_build(["Qhttp", "QhttpGen", "QhttpBridge.Range", "QhttpBridge.Ack", "QhttpBridge.Tables", "QhttpBridge.Copier", "QhttpBridge.Sock", "QhttpBridge.Proxy", "qhttp-driver"])
+ok, out = check.lake_build(["Qhttp", "QhttpGen"] + check.props.ALL_BRIDGE_MODULES + ["qhttp-driver"])
 print(out[-3000:])
 if not ok:
     sys.exit(1)
